@@ -143,6 +143,21 @@ CHECKS = {
         design_ref="DESIGN.md §5 C18",
         note="Compiler code generation, the AVX-512 IPv4 kernel, ipv6_structure_plausible and amalgamate.py are compared "
              "across builds (differential), not modelled; NEON/LSX/RVV variants cannot be built here."),
+
+    "C13": dict(
+        technique="Lean 4 proof: invariant over all interleavings of a release/acquire transition system for the "
+                  "initialisation protocol (any number of threads), tied to the source by a regenerated IR; TSan exploration",
+        text="Gen/InitProtocol.lean is re-extracted every run (atomic ops and memory orders of ensure_tables/"
+             "tables_are_ready, the 19 plain pointer stores in program order, the limit accessors). gen_is_expected proves "
+             "the source has the modelled configuration; the theorems prove, for every interleaving of any number of threads "
+             "under C++11 release/acquire semantics with stale reads, that no data race on the table pointers occurs, every "
+             "user of the tables has the pointer writes in its happens-before view, and at most one thread initialises. "
+             "The limit is shown to be one relaxed atomic read once per parse. Fresh processes making the first IDNA call "
+             "from 2-16 threads, and a limit flipper against parse/can_parse/setters, run under ThreadSanitizer and plain.",
+        design_ref="DESIGN.md §5 C13", category="proof",
+        note="partial: the hardware memory model and the OS scheduler are not modelled (x86 cannot show a release/acquire "
+             "violation); Spec of release/acquire is a ~100-line hand rendering; the 1e9 spin cap (starved waiter returns "
+             "failure) and double limit reads in can_parse are discussed in DESIGN.md, not exhibited."),
 }
 
 NOT_YET = "check not built yet (work in progress in this session; see DESIGN.md §8 build order)"
